@@ -58,7 +58,77 @@ class Check:
     assumptions = ["no faults are injected here (C17 does that)", "queries are one quoted argument; root names are [a-z0-9_]+",
                    "names are valid UTF-8 without NUL or '/'", "roots are disjoint directories"]
 
+    def gen_relink(self, rng):
+        """A root given through a symbolic link that somebody re-points between two queries of one interactive session."""
+        def content(r):
+            return "x" * r.choice([0, 1, 5])
+        world = gen.gen_tree(rng, ["stv1", "stv2"], max_entries=rng.choice([4, 8, 14]), max_depth=rng.choice([2, 3, 4]), kinds={"file": 6, "dir": 5}, adversarial=0, contents=content)
+        # the two targets sit at different nesting levels: store/rel/<v1> and store/<v2>
+        nodes = [{"path": "store", "type": "dir"}, {"path": "store/rel", "type": "dir"}]
+        for n in world["nodes"]:
+            n = dict(n)
+            n["path"] = ("store/rel/" + n["path"]) if n["path"].split("/")[0] == "stv1" else ("store/" + n["path"])
+            nodes.append(n)
+        nodes.append({"path": "cur", "type": "symlink", "target": "store/rel/stv1"})
+        nodes.append({"path": "cur.next", "type": "symlink", "target": "store/stv2"})
+        nodes.append({"path": "trig", "type": "dir"})
+        nodes.append({"path": "trig/trigfile", "type": "file", "content": ""})
+        maxlvl = max(n["path"].count("/") for n in nodes)
+        win = lambda: {"mind": rng.choice([0, 0, 1, 2, 3]), "maxd": rng.choice([0, 1, 2, 3, rng.randint(1, maxlvl)]), "mode": rng.choice(["bfs", "dfs"])}
+        _, plan = gen.gen_env(rng, {"nodes": nodes})
+        plan.pop("nofile", None)
+        return {"sub": "relink", "world": {"nodes": nodes}, "plan": plan, "w1": win(), "w2": win(), "sp": rng.choice(["cur", "./cur", "cur/"])}
+
+    def eval_relink(self, case, ctx):
+        world = case["world"]
+        viols = []
+
+        def clause(sp, w):
+            s = sp
+            if w["mind"]:
+                s += " mindepth %d" % w["mind"]
+            if w["maxd"]:
+                s += " maxdepth %d" % w["maxd"]
+            return s + " " + w["mode"]
+
+        def want(tree_top, w, col):
+            out = collections.Counter()
+            for rel, node, lvl in gen.ref_walk(world, tree_top):
+                if gen.in_window(lvl, w["mind"], w["maxd"]):
+                    out[(rel.rsplit("/", 1)[-1] if col == "name" else printed(case["sp"], rel)).encode("utf-8")] += 1
+            return out
+        q1 = "select name from %s into list" % clause(case["sp"], case["w1"])
+        q2 = "select path from %s into list" % clause(case["sp"], case["w2"])
+        with ctx.sandbox(world) as sb:
+            gen.validate_model(world, sb.root)
+            plan = dict(case["plan"])
+            # between the two queries a third one looks at an unrelated directory; while it runs, the link is re-pointed
+            # (rename of the prepared cur.next over cur) - so neither query about `cur` races with the change
+            plan["mutate"] = [{"call": "opendir", "path": "trig", "nth": 1, "action": "promote", "target": "cur"}]
+            plan["budget"] = 4000 + 400 * len(world["nodes"])
+            rs = sb.run(["-i"], plan=plan, stdin_text=q1 + "\nselect name from trig into list\n" + q2 + "\nexit\n")
+            if len(ctx.samples) < 3:
+                ctx.samples.append({"argv": ["-i"], "stdin": [q1, q2], "outcome": rs.summary()})
+            if rs.sim or rs.signal is not None or rs.status not in (0, 1):
+                return [Violation(PROP, "C01.session", ["C01.session", "abnormal_end", "relink"], {"queries": [q1, q2], "outcome": rs.summary()})]
+            if not any("inj:mutate" in l for l in rs.log):
+                ctx.metric("relink_not_reached")
+                return viols
+            cells = [c for c in rs.stdout.split(b"\0") if c]
+            got1 = collections.Counter(c for c in cells if b"/" not in c) - collections.Counter([b"trigfile"])
+            got2 = collections.Counter(c for c in cells if b"/" in c)
+            w1, w2 = want("store/rel/stv1", case["w1"], "name"), want("store/stv2", case["w2"], "path")
+            if got1 != w1:
+                viols.append(Violation(PROP, "C01.session", ["C01.session", "first_query", "relink"], {"queries": [q1, q2], "missing": [x.decode() for x in (w1 - got1)][:5], "extra": [x.decode() for x in (got1 - w1)][:5]}))
+            elif got2 != w2:
+                viols.append(Violation(PROP, "C01.session", ["C01.session", "query_after_the_link_was_re-pointed", "relink"],
+                                       {"queries": [q1, q2], "missing": [x.decode() for x in (w2 - got2)][:5], "extra": [x.decode() for x in (got2 - w2)][:5]}))
+            ctx.metric("relink_sessions")
+        return viols
+
     def gen(self, rng, tier, index):
+        if rng.random() < 0.02:
+            return self.gen_relink(rng)
         nroots = rng.choice([1, 1, 1, 2, 2, 3])
         tops = rng.sample(gen.SAFE_ROOTS, nroots)
         rx = None
@@ -219,6 +289,14 @@ class Check:
         return c
 
     def shrinks(self, case):
+        if case.get("sub") == "relink":
+            for w in ("w1", "w2"):
+                for k, v in (("mind", 0), ("maxd", 0), ("mode", "bfs")):
+                    if case[w][k] != v:
+                        c = copy.deepcopy(case)
+                        c[w][k] = v
+                        yield c
+            return
         if case.get("extra_col"):
             c = copy.deepcopy(case)
             c["extra_col"] = ""
@@ -345,6 +423,8 @@ class Check:
         return m
 
     def evaluate(self, case, ctx):
+        if case.get("sub") == "relink":
+            return self.eval_relink(case, ctx)
         world = case["world"]
         nm = gen.node_map(world)
         if case.get("rx"):
